@@ -343,8 +343,8 @@ def gen_rules(ctx, cr):
             ty, _ = M.place_ty(cr, None, M.op_place(t["args"][2]), f)
             if ty is not None and (ty.adt_path() or "").endswith("BTreeSet"):
                 leafs.append((bi, t, 2, "map-insert-of-set"))
-    if len(leafs) < 3:
-        ctx.lost(rule, rule + ":leaf-writes", "expected the three recording sites (new type, new property, known property), found %d" % len(leafs))
+    if len(leafs) < 1:
+        ctx.lost(rule, rule + ":leaf-writes", "no site that records a value into a set found in gen_rules")
     for n, (bi, t, ai_, kind) in enumerate(leafs):
         pl = M.op_place(t["args"][ai_])
         calls, consts, locs = slice_calls(cr, f, M.place_local(pl))
@@ -380,15 +380,52 @@ def gen_rules(ctx, cr):
                sample={"site": kind, "line": t.get("ln"), "calls_on_slice": sorted(set(M.norm_path(c["fn"].get("path", "")).split("::")[-1] for c in calls))} if n == 0 else None)
     # the string/non-string decision used for quoting is the same one used for extraction: is_string on the property value
     quoting_guard(ctx, cr, f, names)
-    # ---- every path that reaches the type lookup records the value
-    events = []
+    # ---- every path that reaches the type lookup records the value under (type, property).
+    # Shape-agnostic: the map operations are interpreted over a small abstract heap (containers named by the value they hold, slots
+    # named by container and key), whichever of contains_key/get_mut/insert or the entry API the code uses; at the end of an iteration
+    # the fact  VAL in rule_map[resource_name][prop_name]  must hold.
+    names_by_local = {l: n for n, l in f["names"] if isinstance(l, int)}
+
+    def src_name(operand, depth=0):
+        """source-level name of the local an operand is (a borrow / copy of)"""
+        pl = M.op_place(operand)
+        for _ in range(6):
+            if pl is None:
+                return None
+            l = M.place_local(pl)
+            if l in names_by_local:
+                return names_by_local[l]
+            d = def_of_local(f, l)
+            if not d:
+                return None
+            if d[0] == "stmt":
+                rv = d[2]["rv"]
+                pl = rv.get("p") if rv["r"] == "ref" else M.op_place(rv["o"]) if "o" in rv else None
+            else:
+                pl = M.op_place(d[2]["args"][0]) if d[2]["args"] else None
+        return None
+
+    def elems_of(local):
+        calls, consts, locs = flow.backward_slice(f, local)
+        return set(names_by_local[l] for l in locs if l in names_by_local)
 
     class H(ai.Hooks):
         def __init__(self):
             self.results = []
 
         def ret(self, a, st, v):
-            self.results.append((st.mon or Mon(), st.trace))
+            root = a.resolve(st, v)
+            self.results.append((st.mon or Mon(), st.trace, root[1] if root[0] == "sym" else None))
+
+        def cname(self, a, st, v):
+            """name of the container a receiver value denotes"""
+            v = a.resolve(st, v)
+            for _ in range(4):
+                if v[0] == "ref":
+                    v = a.resolve(st, a.read_at(st, v[1], v[2]))
+                else:
+                    break
+            return v[1] if v[0] == "sym" else None
 
         def call(self, a, st, term, callee, args):
             p = M.norm_path(callee.get("path", ""))
@@ -410,18 +447,59 @@ def gen_rules(ctx, cr):
                 if v[0] == "ref" and v[1] == ("X", "MEMBER:Type"):
                     return [(("enum", ai.OPTION, 1, (("sym", "TYPE"),)), mon), (("enum", ai.OPTION, 0, ()), mon.set(no_type=True))]
                 return None
-            if p.endswith("BTreeMap::contains_key"):
-                which = receiver_name(f, term["args"][0])
-                return [(a.sym(st, a.site(st, ":has")), mon.set(ev=mon.get("ev", ()) + (("has", which),)))]
-            if p.endswith("BTreeMap::get_mut"):
-                which = receiver_name(f, term["args"][0])
-                return [(("enum", ai.OPTION, 1, (("ref", ("X", "SLOT:%s:%d" % (which, st.top.bb)), ()),)), mon.set(ev=mon.get("ev", ()) + (("get", which),)))]
-            if p.endswith("BTreeMap::insert"):
-                which = receiver_name(f, term["args"][0])
-                return [(a.sym(st, a.site(st, ":old")), mon.set(ev=mon.get("ev", ()) + (("insert", which),)))]
-            if p.endswith("BTreeSet::insert"):
-                which = receiver_name(f, term["args"][0])
-                return [(("bool", True), mon.set(ev=mon.get("ev", ()) + (("insert", which),)))]
+            facts_ = mon.get("facts", frozenset())
+            if p in ("std::option::Option::unwrap", "std::option::Option::expect") and args:
+                ov = a.resolve(st, args[0])
+                if ov[0] == "enum" and ov[1] == ai.OPTION:
+                    return [(ov[3][0] if ov[2] == 1 else ai.AI.DIVERGE, mon)]
+                return None
+            if p in ("std::collections::BTreeMap::new", "std::collections::BTreeSet::new", "<std::collections::BTreeMap<K, V> as std::default::Default>::default"):
+                return [(("sym", "C@%s" % a.site(st)), mon)]
+            if p.endswith("Iterator::collect") and isinstance(term["dest"], int):
+                ty, _ = M.place_ty(cr, None, term["dest"], st.top.body)
+                if ty is not None and (ty.adt_path() or "").endswith("BTreeSet"):
+                    nm = "C@%s" % a.site(st)
+                    fs = set(facts_)
+                    srcs = set()
+                    for x in term["args"]:
+                        pl = M.op_place(x)
+                        if pl is not None:
+                            srcs |= elems_of(M.place_local(pl))
+                    for e in srcs:
+                        fs.add(("in", nm, e))
+                    return [(("sym", nm), mon.set(facts=frozenset(fs)))]
+                return None
+            is_map = p.startswith("std::collections::BTreeMap::") or p.startswith("std::collections::btree_map::")
+            meth = p.split("::")[-1]
+            if is_map and meth == "contains_key":
+                return [(a.sym(st, a.site(st, ":has")), mon.set(touched=True))]
+            if is_map and meth in ("get_mut", "get"):
+                c, k = self.cname(a, st, args[0]), src_name(term["args"][1])
+                slot = "SLOT(%s,%s)" % (c, k)
+                st.ext[slot] = ("sym", slot)
+                return [(("enum", ai.OPTION, 1, (("ref", ("X", slot), ()),)), mon.set(touched=True, facts=facts_ | {("at", c, k, slot)}))]
+            if is_map and meth == "entry":
+                c, k = self.cname(a, st, args[0]), src_name(term["args"][1])
+                return [(("sym", "ENTRY(%s,%s)" % (c, k)), mon.set(touched=True))]
+            if p.startswith("std::collections::btree_map::Entry::") and meth in ("or_default", "or_insert", "or_insert_with"):
+                e = a.resolve(st, args[0])
+                m_ = re.match(r"ENTRY\((.*),([^,]*)\)$", e[1]) if e[0] == "sym" else None
+                if m_:
+                    c, k = m_.group(1), m_.group(2)
+                    slot = "SLOT(%s,%s)" % (c, k)
+                    st.ext[slot] = ("sym", slot)
+                    return [(("ref", ("X", slot), ()), mon.set(facts=facts_ | {("at", c, k, slot)}))]
+                return None
+            if is_map and meth == "insert" and len(args) == 3:
+                c, k, v = self.cname(a, st, args[0]), src_name(term["args"][1]), self.cname(a, st, args[2])
+                return [(a.sym(st, a.site(st, ":old")), mon.set(touched=True, facts=facts_ | {("at", c, k, v)}))]
+            if p.startswith("std::collections::BTreeSet::") and meth == "insert" and len(args) == 2:
+                c = self.cname(a, st, args[0])
+                fs = set(facts_)
+                pl = M.op_place(term["args"][1])
+                for e in (elems_of(M.place_local(pl)) if pl is not None else ()):
+                    fs.add(("in", c, e))
+                return [(("bool", True), mon.set(touched=True, facts=frozenset(fs)))]
             return None
     h = H()
     a = ai.AI(cr, h)
@@ -432,27 +510,25 @@ def gen_rules(ctx, cr):
         return
     ctx.states += a.n_states
     bad = []
-    shapes = set()
-    for mon, tr in h.results:
-        ev = mon.get("ev", ())
-        if not ev:
-            # an inner (property, value) pair was taken and nothing was recorded: only legitimate when the resource has no string Type
-            if (mon.get("items") or 0) >= 2 and not mon.get("no_type"):
-                bad.append("a (property, value) pair is dropped without being recorded although the resource has a string Type [%s]" % " > ".join("bb%d(l.%s)" % (t[2], t[3]) for t in tr[-5:]))
-            continue
-        shape = tuple("%s:%s" % e for e in ev)
-        shapes.add(shape)
-    want = {
-        ("has:rule_map", "insert:property_map", "insert:rule_map"),
-        ("has:rule_map", "get:rule_map", "has:property_map", "insert:property_map"),
-        ("has:rule_map", "get:rule_map", "has:property_map", "get:property_map", "insert:value_set"),
-    }
-    for s in sorted(shapes - want):
-        bad.append("a path through the loop body does %s: the value is not recorded under (type, property) on it" % " > ".join(s))
-    for s in sorted(want - shapes):
-        bad.append("expected recording path %s not found" % " > ".join(s))
-    ctx.ob(rule, rule + ":gen_rules:every-path-records", not bad, "; ".join(bad[:3]) or "3 path shapes after the type lookup, each ends in an insert of the value", fn=f,
-           sample={"paths": [" > ".join(s) for s in sorted(shapes)]})
+    n_rec = 0
+    for mon, tr, root in h.results:
+        if (mon.get("items") or 0) < 2 or mon.get("no_type"):
+            continue            # no (property, value) pair on this path, or the resource has no string Type (legitimately skipped)
+        fs = mon.get("facts", frozenset())
+        ok = False
+        for f1 in fs:
+            if f1[0] == "at" and f1[1] == root and f1[2] == "resource_name":
+                for f2 in fs:
+                    if f2[0] == "at" and f2[1] == f1[3] and f2[2] == "prop_name":
+                        if ("in", f2[3], "no_newline_stripped_val") in fs or ("in", f2[3], "prop_val") in fs:
+                            ok = True
+        if ok:
+            n_rec += 1
+        else:
+            bad.append("on a path through the loop body the value does not end up in rule_map[resource_name][prop_name] (facts: %s) [%s]" % (
+                sorted(x for x in fs if x[0] == "at")[:4], " > ".join("bb%d(l.%s)" % (t[2], t[3]) for t in tr[-4:])))
+    ctx.ob(rule, rule + ":gen_rules:every-path-records", not bad and n_rec >= 1, "; ".join(sorted(set(bad))[:2]) or "%d paths, on each the value is recorded under (type, property)" % n_rec, fn=f,
+           sample={"paths_recording": n_rec})
 
 
 def quoting_guard(ctx, cr, f, names):
